@@ -49,6 +49,11 @@ func (state *singleRateLimitState) TryToIncrement(
 		state.windowEndTime = epochTime
 	}
 	state.windowData = windowData
+	if !windowData.SpilloverEnabled {
+		// spillover collected under an earlier configuration must not keep
+		// raising the limit once the feature is switched off
+		state.spillover = 0
+	}
 	state.ensureWindowIsUpdated()
 
 	maxAllowedInWindows := scaledCeil(
